@@ -29,5 +29,5 @@ MANIFEST = {
             "summary() and the stop-condition verdict; the loaded tree is run on and checked for the invariants after every metaepoch.",
     "note": "dill on a Python object graph (engine internals: CMA-ES, samplers, SHADE memory) cannot be expressed in the model. Whether the resumed run equals the live continuation is "
             "measured and reported in the evidence but not required by the property. Trusted: Coq kernel, the harness.",
-    "technique": "Coq: invariants inductive from any state (resumption theorem) + differential dump/load round-trip and resumed-run invariant checks on the real package",
+    "technique": "Coq: invariants inductive from any state (resumption theorem, also for the run() translated from the sources) + regenerated table of pickling customisations proved empty (translator: pickle_dump / pickle_load are the plain dump / load) + differential dump/load round-trip and resumed-run invariant checks on the real package",
 }
